@@ -332,6 +332,8 @@ CLAUSE_TEXT = {
     'template-residue': ('template-residue', '(c) no un-expanded template residue ({{ }} or {identifier})'),
     'missing-parameter': ('missing-parameter', '(d) every $parameter named in the text is supplied'),
     'unbound-variable': ('unbound-variable', '(e) every referenced variable is bound earlier in the statement'),
+    'dangling-separator': ('dangling-separator', '(f) no separator with nothing on one side (", }", "{ ,", "key: }"): what an empty container spliced '
+                                                 'into the text leaves behind'),
 }
 
 
